@@ -201,6 +201,12 @@ class Builtins:
                     r = h.oracle("contains", t)
                     if r is not None:
                         return r
+                holes_ = [x for x in container.atoms if not isinstance(x, Lit)]
+                if h is None and len(holes_) == 1 and isinstance(holes_[0], Hole) and holes_[0].oracle is not None:
+                    o = holes_[0].oracle
+                    if o("contains", t) is False and all(o("startswith", t[k:]) is False for k in range(1, len(t))) and \
+                            all(o("endswith", t[:k]) is False for k in range(1, len(t))):
+                        return False
             return I.run.assume(("in", I.value_key(item), I.value_key(container)), label)
         if isinstance(container, (Unknown, AbsList, Str)):
             return I.run.assume(("in", I.value_key(item), I.value_key(container)), label)
@@ -1105,10 +1111,33 @@ class Builtins:
         if meta.get("match_or_none"):
             pat = args[0] if args else kwargs.get("pattern")
             subj = args[1] if len(args) > 1 else kwargs.get("string")
+            if isinstance(pat, Str) and pat.is_concrete() and isinstance(subj, Str) and subj.is_concrete() and \
+                    len(args) + len(kwargs) <= 3:
+                # a constant regex applied to a constant string: evaluate the constant
+                import re as _pyre
+                try:
+                    fn = getattr(_pyre, name.split(".")[-1])
+                    mo = fn(pat.text(), subj.text())
+                    if mo is None:
+                        return NONE
+                    m["truthy"] = True
+                    m["not_none"] = True
+                    m.pop("match_or_none", None)
+                    m["group0"] = Str.lit(mo.group(0))
+                    m["concrete_groups"] = [mo.group(0)] + list(mo.groups())
+                    return Unknown(I.run.new_tag(f"{name}(...)"), m)
+                except Exception:
+                    pass
+            ck = ("$rxcall", name, I.expr_of(pat) if pat is not None else "", I.expr_of(subj) if subj is not None else "")
+            if ck in I.run.const_cache:
+                return I.run.const_cache[ck]
             if isinstance(pat, Str) and pat.is_concrete():
                 m["group0"] = self._group0(name, pat.text(), subj)
                 m["pattern_text"] = pat.text()
                 m["subject"] = subj
+            res = Unknown(I.run.new_tag(f"{name}(...)"), m)
+            I.run.const_cache[ck] = res
+            return res
         return Unknown(I.run.new_tag(f"{name}(...)"), m)
 
     def _group0(self, name: str, pattern: str, subj) -> Str:
